@@ -19,7 +19,7 @@ def install_cuts(E):
     def _preprocess_arguments(self, values, mask):
         vl = list(values) if isinstance(values, (list, tuple)) else [values]
         names = [getattr(v, "name", None) for v in vl]
-        return names, vl, [v.dtype for v in vl], None
+        return names, vl, [v.dtype if hasattr(v, "dtype") else v.type for v in vl], None
 
     def _convert_arr_to_pandas_series(self, arr, orig_type, index):
         return FakeSeries(arr, index)
